@@ -1530,14 +1530,16 @@ class Canon:
                     if e.get("k") == "If" and e.get("else") is not None:
                         cand = (i, e, False)
                         th, el = e["then"], _strip(e["else"])
-                        if th.get("k") == "Block" and el.get("k") == "Block" and str(el.get("ty")) == "!" and str(th.get("ty")) != "!" and not e.get("m"):
-                            break
+                        if th.get("k") == "Block" and el.get("k") == "Block" and str(el.get("ty")) == "!" and str(th.get("ty")) != "!" and not e.get("m") and \
+                                not any(y.get("k") in ("Ret", "Break", "Continue") for y in _walk(el)):
+                            break          # (only a panicking else: a `return` there is an exit the rules look at where it stands)
                         cand = None
                 if cand is None and blk.get("expr") is not None:
                     e = _strip(blk["expr"])
                     if e.get("k") == "If" and e.get("else") is not None and not e.get("m"):
                         th, el = e["then"], _strip(e["else"])
-                        if th.get("k") == "Block" and el.get("k") == "Block" and str(el.get("ty")) == "!" and str(th.get("ty")) != "!":
+                        if th.get("k") == "Block" and el.get("k") == "Block" and str(el.get("ty")) == "!" and str(th.get("ty")) != "!" and \
+                                not any(y.get("k") in ("Ret", "Break", "Continue") for y in _walk(el)):
                             cand = (len(sts), e, True)
                 if cand is None:
                     continue
